@@ -16,35 +16,42 @@ configured format (JSON when unset) -/
 theorem writer_success (wn en : Bool) (cfg : Nat) (t : Table) (w : WBeh) (b : Bytes)
     (h : writerProcess wn en cfg t w = .wrote b) :
     wn = false ∧ en = false ∧ format t (effFormat cfg) = some b ∧
-    (w = .ok ∨ ∃ n, w = .short n ∧ b.length ≤ n) := by
+    (b = [] ∨ w = .ok ∨ ∃ n, w = .short n ∧ b.length ≤ n) := by
   unfold writerProcess at h
   cases wn <;> cases en <;> simp only [Bool.false_eq_true, if_false, if_true] at h <;> try (cases h)
   cases hf : format t (effFormat cfg) with
   | none => simp [hf] at h
   | some v =>
     simp only [hf] at h
-    cases w with
-    | ok => simp only at h; injection h with h; subst h; exact ⟨rfl, rfl, rfl, Or.inl rfl⟩
-    | fail => cases h
-    | short n =>
-      simp only at h
-      split at h
-      · cases h
-      · injection h with h; subst h
-        exact ⟨rfl, rfl, rfl, Or.inr ⟨n, rfl, by omega⟩⟩
+    by_cases hv : v.isEmpty = true
+    · simp only [hv, if_true] at h
+      injection h with h; subst h
+      have : v = [] := by simpa using hv
+      exact ⟨rfl, rfl, by rw [this], Or.inl rfl⟩
+    · simp only [hv, if_false, Bool.false_eq_true] at h
+      cases w with
+      | ok => simp only at h; injection h with h; subst h; exact ⟨rfl, rfl, rfl, Or.inr (Or.inl rfl)⟩
+      | fail => cases h
+      | short n =>
+        simp only at h
+        split at h
+        · cases h
+        · injection h with h; subst h
+          exact ⟨rfl, rfl, rfl, Or.inr (Or.inr ⟨n, rfl, by omega⟩)⟩
 
 /-- ... and reports an error when the event carries no bytes for that format, the writer is missing,
 or the underlying write fails or is short -/
 theorem writer_error (wn en : Bool) (cfg : Nat) (t : Table) (w : WBeh) :
     (wn = true → writerProcess wn en cfg t w = .errNilWriter) ∧
     (wn = false → en = false → format t (effFormat cfg) = none → writerProcess wn en cfg t w = .errNotMarshaled) ∧
-    (wn = false → en = false → ∀ v, format t (effFormat cfg) = some v →
+    (wn = false → en = false → ∀ v, format t (effFormat cfg) = some v → v ≠ [] →
         (w = .fail ∨ ∃ n, w = .short n ∧ n < v.length) → writerProcess wn en cfg t w = .errWrite) := by
   refine ⟨?_, ?_, ?_⟩
   · intro h; simp [writerProcess, h]
   · intro h1 h2 h3; simp [writerProcess, h1, h2, h3]
-  · intro h1 h2 v h3 h4
-    simp only [writerProcess, h1, h2, h3]
+  · intro h1 h2 v h3 hne h4
+    have hv : v.isEmpty = false := by cases v <;> simp_all
+    simp only [writerProcess, h1, h2, h3, hv]
     rcases h4 with h4 | ⟨n, h4, h5⟩
     · simp [h4]
     · simp [h4, h5]
